@@ -45,6 +45,11 @@ class Contract:
     module: Any = None               # contract module (namespace for spec functions)
     lemmas: List[str] = field(default_factory=list)
     allow_unsupported: bool = False
+    domain: List[str] = field(default_factory=list)        # sub-domain on which the code meets `ensures`
+    returns_when: List[str] = field(default_factory=list)  # pre-state conditions under which it must not raise
+    verify_only: bool = False        # never used at call sites
+    vname: str = ''
+    trusted_ensures: Dict[str, str] = field(default_factory=dict)  # assumed at call sites, checked natively only
 
     @property
     def modname(self):
@@ -104,6 +109,8 @@ class Registry:
         return s
 
     def field_kind(self, cls, attr):
+        if cls == 'ReMatch' and attr.startswith('g_'):
+            return 'opt[str]'
         seen = set()
         todo = [cls]
         while todo:
@@ -148,6 +155,16 @@ def spec(fn):
     fn.__pyvc_spec__ = True
     REG.specs[fn.__name__] = fn
     return fn
+
+
+def uninterp(sorts, result):
+    """Spec function that is *uninterpreted* in SMT (a ghost function of its
+    arguments) and has an executable native twin (the decorated body)."""
+    def deco(fn):
+        fn.__pyvc_uninterp__ = (tuple(sorts), result)
+        REG.specs[fn.__name__] = fn
+        return fn
+    return deco
 
 
 # ---------------------------------------------------------------- native twins
